@@ -384,7 +384,7 @@ impl Directive {
             Directive::Macro => {
                 if let DirectiveOps::OpList(values) = &opts {
                     if let Some(Operand::E(Expr::Ident(name))) = values.get(0) {
-                        context.macros.name.replace(name.clone());
+                        context.macros.name.replace(name.to_lowercase());
                         next_item = NextItem::EndMacro;
                     } else {
                         bail!("wrong format for .macro, expected: {} in {}", opts, point,);
